@@ -207,11 +207,21 @@ pub fn run(_env: &Env, run: &Run) -> (Stats, Coverage) {
         all_ops(s, &chars, st);
         st.count("out:returned");
     }));
+    // same-buffer histories (caches keyed by the address and length of the argument)
+    {
+        let hs: Vec<char> = [0x61u32, 0x6C, 0xB7, 0xE9, 0x200D, 0x94D, 0x65E5, 0x20, 0xA0].iter().map(|c| char::from_u32(*c).unwrap()).collect();
+        let strs = all_strings(&hs, 3);
+        st.merge(same_buffer_pairs(&strs, |s, st| {
+            let chars: Vec<char> = s.chars().collect();
+            all_ops(s, &chars, st);
+            all_ctx(s, &chars, st);
+        }));
+    }
     st.sample(json!({"input": ["U+00E9", " "], "ops": "4 profiles x (prepare, enforce, static prepare/enforce, 4 compare forms, 5 Rules methods) + allows x 2", "expected": "no panic"}));
     st.sample(json!({"input": ["U+200C"], "op": "rule_zero_width_nonjoiner", "position": "usize::MAX", "expected": "Undefined, no arithmetic overflow"}));
     st.sample(json!({"input": "0xFFFFFFFF", "op": "get_value_from_codepoint / get_context_rule", "expected": "a value, no panic"}));
     let cov = Coverage {
-        rule: format!("(a) every scalar value in 12 templates (alone, next to ASCII, before/after/around spaces, after NBSP, after a Hebrew letter, before a combining mark, between a 2-byte letter and U+3000, around a fullwidth letter) through 54 operations: 4 profiles x (prepare, enforce, static prepare, static enforce, compare(s,s), compare(s,a), compare(a,s), static compare, 5 Rules methods) + allows of both classes; (b) every u32 in {} through get_value_from_codepoint of both classes and get_context_rule; (c) every string of length <= {} over a {}-symbol alphabet with one member of every behaviour class and every UTF-8 length, all operations; (c') pumped runs a^k b, b a^k, a^k b a for k in 6..9, 15..17, 30..33, 63..65 over the alphabet (127..1025 over 6 symbols) and every ASCII character at every offset of 7..33-byte ASCII strings, all operations; (d) the eight context rule functions on every such string of length <= 3 at positions 0..=len+1, usize::MAX-1, usize::MAX, usize::MAX/2, 2^32; oracle: no unwind (built with overflow checks and debug assertions on), no case running longer than 10 s (watchdog); non-trivial = strings with a multi-byte character", if exhaustive_u32 { "0..=u32::MAX" } else { "0..=0x1FFFFF + lattice" }, n, sigma.len()),
+        rule: format!("(a) every scalar value in 12 templates (alone, next to ASCII, before/after/around spaces, after NBSP, after a Hebrew letter, before a combining mark, between a 2-byte letter and U+3000, around a fullwidth letter) through 54 operations: 4 profiles x (prepare, enforce, static prepare, static enforce, compare(s,s), compare(s,a), compare(a,s), static compare, 5 Rules methods) + allows of both classes; (b) every u32 in {} through get_value_from_codepoint of both classes and get_context_rule; (c) every string of length <= {} over a {}-symbol alphabet with one member of every behaviour class and every UTF-8 length, all operations; (c') pumped runs a^k b, b a^k, a^k b a for k in 6..9, 15..17, 30..33, 63..65 over the alphabet (127..1025 over 6 symbols) and every ASCII character at every offset of 7..33-byte ASCII strings, all operations; (c'') every ordered pair of equal-byte-length strings of length <= 3 over 9 symbols run one after the other in the same allocation; (d) the eight context rule functions on every such string of length <= 3 at positions 0..=len+1, usize::MAX-1, usize::MAX, usize::MAX/2, 2^32; oracle: no unwind (built with overflow checks and debug assertions on), no case running longer than 10 s (watchdog); non-trivial = strings with a multi-byte character", if exhaustive_u32 { "0..=u32::MAX" } else { "0..=0x1FFFFF + lattice" }, n, sigma.len()),
         alphabet: json!(sigma.iter().map(|c| format!("U+{:04X}", *c as u32)).collect::<Vec<_>>()),
         bound_completed: format!("sweep 1,112,064 x 12 templates x 54 ops; tree length <= {} ({} strings)", n, tree_size(sigma.len(), n)),
         exhaustive: false,
